@@ -42,11 +42,12 @@ func genScenario(t *rapid.T, kind string) LeaseScenario {
 		}
 		// the renewal scheme tolerates latency + failures only up to a point (retry after lease/8): keep the generated
 		// combination well inside it - "individual renewal attempts failed transiently" on a storage that answers
+		// (a failed attempt costs lease/8 plus twice the latency: after lease/2 + lease/8 + 3 x latency the record must still be alive)
 		switch {
 		case len(s.FailCas) == 2 && s.FailCas[1] == s.FailCas[0]+1:
-			s.DelayPct = min(s.DelayPct, 5)
+			s.DelayPct = 0
 		case len(s.FailCas) > 0:
-			s.DelayPct = min(s.DelayPct, 10)
+			s.DelayPct = min(s.DelayPct, 5)
 		}
 		s.Acquire = rapid.SampledFrom([]string{"", "", "lockctx", "trylock"}).Draw(t, "acquire")
 		s.Blocking = rapid.Bool().Draw(t, "blockingContender")
